@@ -9110,6 +9110,7 @@ class SVG(Group):
         clip = 0
         root = context
         styles = {}
+        style_order = {}
         stack = []
 
         values = {
@@ -9152,36 +9153,32 @@ class SVG(Group):
                 attributes = dict(elem.attrib)  # priority; lowest
                 attributes[SVG_ATTR_TAG] = tag
 
-                # Split any Style block elements into parts; priority medium
-                style = ""
+                # Split any Style block elements into parts; priority medium.
+                # Matching rules apply in order of specificity (universal, type, class, type.class, id) and,
+                # within the same specificity, in the order the selectors first appear in the style sheet.
+                matched = []
                 if "*" in styles:  # Select all.
-                    style += styles["*"]
+                    matched.append((0, style_order["*"], styles["*"]))
                 if tag in styles:  # selector type
-                    if len(style) != 0:
-                        style += ";"
-                    style += styles[tag]
-                if SVG_ATTR_ID in attributes:  # Selector id #id
-                    svg_id = attributes[SVG_ATTR_ID]
-                    css_tag = "#%s" % svg_id
-                    if css_tag in styles:
-                        if len(style) != 0:
-                            style += ";"
-                        style += styles[css_tag]
+                    matched.append((1, style_order[tag], styles[tag]))
                 if SVG_ATTR_CLASS in attributes:  # Selector class .class
-                    for svg_class in attributes[SVG_ATTR_CLASS].split(" "):
+                    for svg_class in attributes[SVG_ATTR_CLASS].split():
                         css_tag = ".%s" % svg_class
                         if css_tag in styles:
-                            if len(style) != 0:
-                                style += ";"
-                            style += styles[css_tag]
+                            matched.append((10, style_order[css_tag], styles[css_tag]))
                         css_tag = "%s.%s" % (
                             tag,
                             svg_class,
                         )  # Selector type/class type.class
                         if css_tag in styles:
-                            if len(style) != 0:
-                                style += ";"
-                            style += styles[css_tag]
+                            matched.append((11, style_order[css_tag], styles[css_tag]))
+                if SVG_ATTR_ID in attributes:  # Selector id #id
+                    svg_id = attributes[SVG_ATTR_ID]
+                    css_tag = "#%s" % svg_id
+                    if css_tag in styles:
+                        matched.append((100, style_order[css_tag], styles[css_tag]))
+                matched.sort(key=lambda m: (m[0], m[1]))
+                style = ";".join(m[2] for m in matched)
                 # Split style element into parts; priority highest
                 if SVG_ATTR_STYLE in attributes:
                     if len(style) != 0:
@@ -9463,6 +9460,7 @@ class SVG(Group):
                             sel = selector.strip()
                             if sel not in styles:
                                 styles[sel] = value
+                                style_order[sel] = len(style_order)
                             else:
                                 if not styles[sel].endswith(";"):
                                     styles[sel] += ";"
